@@ -39,7 +39,11 @@ class ListProxy(list, ContainerValueMixin):
         if not self.list_field.field:
             raise TypeError("ListProxy requires a parent ListField.field attribute")
 
-        if isinstance(iterable, ListProxy) and iterable.item_field is list_field.field:
+        if (
+            isinstance(iterable, ListProxy)
+            and iterable.cfg is cfg
+            and iterable.item_field is list_field.field
+        ):
             super().__init__(iterable)
         else:
             super().__init__(
@@ -57,7 +61,11 @@ class ListProxy(list, ContainerValueMixin):
         super().append(self._validate(item))
 
     def extend(self, iterable: Iterable) -> None:
-        if isinstance(iterable, ListProxy) and iterable.item_field is self.item_field:
+        if (
+            isinstance(iterable, ListProxy)
+            and iterable.cfg is self.cfg
+            and iterable.item_field is self.item_field
+        ):
             super().extend(iterable)
         else:
             super().extend(self._validate(item) for item in iterable)
